@@ -399,7 +399,7 @@ def build_extra():
     c = C09.build()
     c.pid = "C17l"
     c.only_verify = ["Light.remove_from_stack_by_key", "Light._remove_fade_out", "Light._remove_from_stack_by_key"]
-    return [c, show_player_set(), replace_set()]
+    return [c, show_player_set(), replace_set(), config_set()]
 
 
 SHOWC = "mpf/core/show_controller.py"
@@ -462,6 +462,71 @@ def replace_set():
                    "hands the old show's stop to the new show as its start callback - the old show keeps playing until the "
                    "sync point, also when it has not played a step yet - and an unsynchronised one stops it first",
                    "implies(n_plays() == 1, takeover_ok(old_instance, config))")],
+         modifies=[], raises={})
+    return C
+
+
+def config_set():
+    """what a show is played WITH is what was asked for: create_show_config keeps every explicit setting (an explicit
+    sync_ms of 0 = 'start at once' is not the machine default), and a show pool hands every play argument - the start
+    callback that stops a replaced show included - on to the show it picks"""
+    C = ContractSet("C17c", "show configs and pools pass on what was asked for")
+    C.cls("MpfController", fields={})
+    C.namedtuple(SH, "ShowConfig")
+    C.cls("ShowController", file=SHOWC, bases=["MpfController"], fields=dict(
+        machine=ObjS("MachineController", config=Rec(mpf=Rec(default_show_sync_ms=Int)))))
+    EV = Opt(Opaque("Events"))
+    C.fn("ShowController.create_show_config",
+         params=dict(name=Str, priority=Int, speed=Real, loops=Int, sync_ms=Opt(Int), manual_advance=Bool,
+                     show_tokens=Opt(Opaque("Tokens")), events_when_played=EV, events_when_stopped=EV, events_when_looped=EV,
+                     events_when_paused=EV, events_when_resumed=EV, events_when_advanced=EV, events_when_stepped_back=EV,
+                     events_when_updated=EV, events_when_completed=EV),
+         ensures=[("CF1: an explicit sync_ms - 0 included: 'start immediately, no grid' - is the show's sync_ms; only a "
+                   "show WITHOUT one gets the machine default",
+                   "result.sync_ms == (sync_ms if sync_ms is not None else "
+                   "self.machine.config['mpf']['default_show_sync_ms'])"),
+                  ("CF2: speed, loops, priority, manual advance, tokens and event lists are the requested ones",
+                   "result.name == name and result.priority == priority and result.speed == speed and "
+                   "result.loops == loops and result.manual_advance == manual_advance and "
+                   "result.show_tokens is show_tokens and result.events_when_played is events_when_played and "
+                   "result.events_when_stopped is events_when_stopped and result.events_when_looped is events_when_looped "
+                   "and result.events_when_completed is events_when_completed")],
+         modifies=[], raises={})
+
+    def play(I, env, a, k):
+        names = ["show_config", "start_time", "start_running", "start_callback", "stop_callback", "start_step"]
+        got = dict(zip(names, a))
+        got.update(k)
+        emit(I, "play", kwargs=got)
+        return I.fresh(ObjS("RunningShowI"), I.fresh_name("running"))
+    C.cls("RunningShowI", fields={})
+    C.cls("ShowI", fields={})
+    C.ext("ShowI.play_with_config", model=play, trusted_reason="Show.play_with_config (C17 main set)")
+    C.cls("AssetPool", fields={})
+    C.cls("ShowPool", file=SH, bases=["AssetPool"], fields=dict(chosen=ObjS("ShowI")), check_bases=False)
+    C.ext("ShowPool.asset", model=lambda I, env, a, k: I.read_field(env["self"].ref, "chosen"), is_property=True,
+          trusted_reason="AssetPool.asset: picks the next show of the pool")
+
+    def forwarded(I, *vals):
+        plays = events_named(I, "play")
+        if len(plays) != 1:
+            return VBool(False)
+        kw = plays[0].args["kwargs"]
+        names = ["show_config", "start_time", "start_running", "start_callback", "stop_callback", "start_step"]
+        return VBool(z3.And([I.eq(kw.get(n, NONE), v) if not (I.force(v).tag == "fn" or I.force(kw.get(n, NONE)).tag == "fn")
+                             else z3.BoolVal(I.force(kw.get(n, NONE)) is I.force(v) or
+                                             (I.force(kw.get(n, NONE)).tag == I.force(v).tag and
+                                              bool(z3.is_true(z3.simplify(I.eq(kw.get(n, NONE), v))))))
+                             for n, v in zip(names, vals)]))
+    C.helpers["forwarded"] = forwarded
+    C.trace_helpers = {"forwarded"}
+    C.fn("ShowPool.play_with_config",
+         params=dict(show_config=Opaque("ShowConfigO"), start_time=Opt(Real), start_running=Bool, start_callback=Opt(Fn),
+                     stop_callback=Opt(Fn), start_step=Opt(Int)),
+         ensures=[("PL1: the show picked from the pool is played with EVERY argument of the request: config, start time, "
+                   "running flag, start callback (it stops the show this one replaces at the sync point), stop callback "
+                   "and start step", "forwarded(show_config, start_time, start_running, start_callback, stop_callback, "
+                                     "start_step)")],
          modifies=[], raises={})
     return C
 
